@@ -88,12 +88,44 @@ func c05Progress(p vbase.Params, r *vbase.Result) {
 	if v := os.Getenv("VERIF_DEBUG_CASE"); v != "" {
 		fmt.Sscan(v, &dbg)
 	}
-	for i := 0; i < n; i++ {
+	// directed family first: one honest replica is cut off while the others make fault-free progress for K views, then rejoins
+	type lagCase struct {
+		ruleset, leader string
+		n, k            int
+	}
+	var lags []lagCase
+	for _, rs := range Rulesets[:2] {
+		for _, nn := range []int{4, 7} {
+			for _, ld := range []string{"fixed", "script", "round-robin"} {
+				for _, k := range []int{2, 5, 9, 10, 11, 12, 15, 25, 40} {
+					lags = append(lags, lagCase{rs, ld, nn, k})
+				}
+			}
+		}
+	}
+	for i := -len(lags); i < n; i++ {
 		if dbg >= 0 && i != dbg {
+			continue
+		}
+		if i < 0 && !p.Mine(-i) {
 			continue
 		}
 		rng := vbase.NewRng(p.Seed, "C05.progress", p.Shard, p.NShards, i)
 		cfg, faulty := genProgressConfig(rng)
+		lagK := 0
+		if i < 0 {
+			lc := lags[-i-1]
+			lagK = lc.k
+			faulty = map[hotstuff.ID]bool{}
+			cfg = Config{N: lc.n, Ruleset: lc.ruleset, Scheme: crypto.NameEDDSA, Cache: uint([]int{0, 100}[lc.k%2]), Leader: lc.leader, BatchSize: 1,
+				Profile: "directed:deep-lag", ByzRules: map[hotstuff.ID]string{}, Label: fmt.Sprintf("deep-lag/%d", lc.k)}
+			if lc.leader == "script" {
+				// the lagging replica (the last one) never leads
+				for k := 0; k < 2*lc.n; k++ {
+					cfg.Sched = append(cfg.Sched, hotstuff.ID(1+rng.Intn(lc.n-1)))
+				}
+			}
+		}
 		c, err := NewCluster(cfg, rng, r)
 		if err != nil {
 			r.Inconclusive(err.Error())
@@ -112,7 +144,11 @@ func c05Progress(p vbase.Params, r *vbase.Result) {
 		savedScripted := cfg.Scripted
 		_ = savedScripted
 		c.Cfg.Profile = cfg.Profile
-		c.runPrefixNoByz()
+		if lagK > 0 {
+			c.prefixIsolateLast(lagK)
+		} else {
+			c.runPrefixNoByz()
+		}
 		if c.Panic != nil {
 			c.Close()
 			r.Obs("prefix_panics_judged_under_C10", 1)
@@ -237,6 +273,25 @@ func c05Progress(p vbase.Params, r *vbase.Result) {
 		}
 		c.Close()
 	}
+}
+
+// prefixIsolateLast cuts the last replica off while the others run fault-free lock-step rounds until they are k views ahead.
+func (c *Cluster) prefixIsolateLast(k int) {
+	c.Start()
+	groups := make([]int, len(c.Actors))
+	groups[len(groups)-1] = 1
+	c.SetPartition(groups)
+	c.NoFaults = true
+	c.CutLoss = true
+	lag := c.Actors[len(c.Actors)-1]
+	for c.Step = 1; c.Step <= 40*k+60 && c.Panic == nil; c.Step++ {
+		c.cmd.topUp()
+		c.lockstepRound(nil)
+		if int(c.Actors[0].Node.VS.View())-int(lag.Node.VS.View()) >= k {
+			break
+		}
+	}
+	c.FaultSteps++
 }
 
 // runPrefixNoByz runs the scheduler with scripted actors silent (they model crash/silent faults in C05).
